@@ -479,7 +479,13 @@ class PathAnalysis(flow.Analysis):
             return False
         return True
 
+    inliner = None  # optional: call -> expression of a pure single-return predicate with arguments substituted
+
     def cond(self, state: PState, test, pol: bool):
+        if self.inliner is not None and isinstance(test, ast.Call):
+            e = self.inliner(test)
+            if e is not None:
+                return self.cond(state, e, pol)
         state = self._events(state, test) if not isinstance(test, ast.BoolOp) and not (isinstance(test, ast.UnaryOp)) else state
         if isinstance(test, ast.UnaryOp) and isinstance(test.op, ast.Not):
             return self.cond(state, test.operand, not pol)
